@@ -875,7 +875,15 @@ func runSess(env *Env) error {
 			env.OracleFail(id, "[C05-readonly] writing is disabled but the served tree changed")
 		}
 		cfg := fmt.Sprintf("%s|%s|%d|%s", hx([]byte("R")), hxnum(int64(len(top))), b2i(allow), hxnum(tmutUnix))
-		fields := []string{cfg, w.Spec(), lit(stream).Spec(), mode}
+		var opl []string
+		for _, o := range ops {
+			opl = append(opl, fmt.Sprintf("%x", o))
+		}
+		opsField := strings.Join(opl, ",")
+		if opsField == "" {
+			opsField = "-"
+		}
+		fields := []string{cfg, w.Spec(), lit(stream).Spec(), mode, opsField}
 		nontrivial := len(res.steps) >= 3 || mode == "blob"
 		env.Case(id, "SESS", fields, obsString(res, mode == "blob"), nontrivial)
 		env.Count("mode", mode)
